@@ -15,9 +15,9 @@ package db
 // Not decided (goroutine/channel code, storage): the merge of per-channel feeds, removal notices across channels,
 // paging/resume tokens, the query itself, late-sequence feeds, cache eviction, continuous/long-poll wake-up.
 //
-// Tags: everything is C01 except prependChanges, which is tagged C01P (`govc check -prop C01P`): its 166
-// obligations all discharge, but a handful (pre-ee, s-pairs, fin-old) take 10-30 s of solver time, so it is kept
-// out of the quick C01 run; delete its `props C01P` line to fold it in.
+// prependChanges' 166 obligations all discharge, but four cut-point assertions (pre-ee, pre-seen, s-pairs, fin-old) take
+// 3-30 s of solver time depending on load: they are marked `thorough-only` (discharged by `./check C01 thorough`; the quick
+// tier assumes them and lists them in the evidence under deferred_to_thorough_tier).
 //
 // Proof devices: at(k, lvl) (always true, /verif/trusted/c01_trigger.spec) marks an index so that index-quantified
 // facts are instantiated on demand (levels: len of the list for the in-place loops, -1/-2/-5 for named index
@@ -357,7 +357,7 @@ package db
 // only if the answer reaches up to the old validFrom (no prepending over a gap), and every row between the new and
 // the old validFrom is represented by an entry of its document that is at least as new (no hole below the old entries).
 //@ func singleChannelCacheImpl.prependChanges
-//@   props C01P
+//@   thorough-only pre-ee, pre-seen, s-pairs, fin-old
 //@   safety on
 //@   requires ccInv(c) && c.options.ChannelCacheMaxLength > 0 && len(c.logs) <= c.options.ChannelCacheMaxLength
 //@   requires[rows] lNonNil(changes) && lFrom(changes, changesValidFrom)
